@@ -77,9 +77,10 @@ ASSUMPTIONS = [
     "reported value inside the stencil, or a value varying on a much shorter scale), the back-propagated directional derivative is integrated "
     "over the interval (composite 5-point Gauss-Legendre, 1..8 panels, until the change of the last refinement is < 5% of the disagreement) and "
     "compared with f(x+H) - f(x-H) at 1e-5 of the scale: a gradient that is the derivative of the reported value integrates to its "
-    "differences; kind interval_mismatch, labels interval_check / interval_check_open",
+    "differences; the same form is applied over [g/2, 2g] to the growth rate of the exponential coalescent (a parameter on a logarithmic scale "
+    "whose local stencil only spans 45% of its size), at 1e-4 of the scale; kind interval_mismatch, labels interval_check(_wide) / interval_check_open",
     "the growth rate of the exponential coalescent keeps its sign and moves by at most 45% of its size (0 is a singular point of the shipped "
-    "formula: documented TODO); growth rates below 1e-6 in size are not generated (the formula loses its digits to cancellation there)",
+    "formula: documented TODO); growth rates below 2e-6 in size are not generated (the formula loses its digits to cancellation there)",
     "MultivariateNormal covariance / precision matrices are perturbed symmetrically only (torch reads one triangle and symmetrises the "
     "gradient); scale_tril: entries above the diagonal are not differentiated",
     "RootParameter cannot be instantiated (abstract requires_grad), PiecewiseExponentialCoalescentGridModel raises on every input (known C08): "
@@ -590,48 +591,53 @@ class Engine:
     GL5 = ([-0.906179845938664, -0.5384693101056831, 0.0, 0.5384693101056831, 0.906179845938664],
            [0.23692688505618908, 0.47862867049936647, 0.5688888888888889, 0.47862867049936647, 0.23692688505618908])
 
-    def interval_check(self, inf, r, x0):
-        """the first tableau over [-H, H] was inconsistent although the value is evaluated accurately: either the value varies on a
-        much shorter scale (smooth) or it has a jump / kink inside the stencil.  The gradient is the derivative of the reported value
-        on the interval iff it integrates to the difference of the values: composite Gauss-Legendre quadrature (1, 2, 4, 8 panels of 5
-        nodes, until two successive results agree much better than they disagree with the difference) of the back-propagated
-        directional derivative against f(H) - f(-H).  Returns a detail dict on disagreement, "open" if the quadrature does not settle,
-        None otherwise."""
+    def interval_check(self, inf, d, x0, lo, hi, rtol=1e-5):
+        """Interval form of the property: the gradient is the derivative of the reported value on [x + lo d, x + hi d] iff it integrates
+        to the difference of the values.  Composite Gauss-Legendre quadrature (1, 2, 4, ... 32 panels of 5 nodes, until the change of the
+        last refinement is small against the disagreement) of the back-propagated directional derivative against f(hi) - f(lo).
+        Used (a) when the first tableau over [-H, H] was inconsistent although the value is evaluated accurately - either the value varies
+        on a much shorter scale (smooth) or it has a jump / kink inside the stencil - and (b) over a factor 2 either side of a parameter
+        that lives on a logarithmic scale.  Returns a detail dict on disagreement, "open" if the quadrature does not settle, else None."""
         p = self.leaf_of[inf["id"]]
         keep = p.tensor
-        H, d = r["rough"], r["d"]
         shape = x0.shape
         try:
             def f(t):
                 p.tensor = (x0.detach().reshape(-1) + t * torch.as_tensor(d, dtype=x0.dtype)).reshape(shape)
                 return self.value()
 
-            fb, fa = f(H), f(-H)
+            fb, fa = f(hi), f(lo)
             if not (math.isfinite(fb) and math.isfinite(fa)):
                 return None
             diff = fb - fa
+            # evaluation noise of the value at both ends (second differences of closely spaced evaluations carry no signal)
+            sigma = 0.0
+            for end in (lo, hi):
+                pv = [f(end + k * 1e-6 * (hi - lo)) for k in range(-3, 4)]
+                if all(math.isfinite(v) for v in pv):
+                    sigma = max(sigma, max(abs(pv[k] - 2.0 * pv[k + 1] + pv[k + 2]) for k in range(len(pv) - 2)) / 2.0)
             prev = None
             gmax = 0.0
-            for m in (1, 2, 4, 8):
+            for m in (1, 2, 4, 8, 16, 32):
                 q = 0.0
-                w = H / m
+                w = 0.5 * (hi - lo) / m
                 for k in range(m):
-                    mid = -H + (2 * k + 1) * w
+                    mid = lo + (2 * k + 1) * w
                     for u, wt in zip(*self.GL5):
                         v = self.autodiff_at(inf, x0, d, mid + u * w)
                         if v is None or not math.isfinite(v):
                             return None
                         gmax = max(gmax, abs(v))
                         q += w * wt * v
-                scale = max(abs(diff), 2.0 * H * gmax, 1e-300)
+                scale = max(abs(diff), (hi - lo) * gmax, 1e-300)
                 if prev is not None:
                     unc = abs(q - prev)
                     gap = abs(q - diff)
-                    if unc <= max(1e-7 * scale, 0.05 * gap):
-                        tol = 1e-5 * scale + 4.0 * unc + 64.0 * EPS * max(abs(fa), abs(fb))
+                    if unc <= max(1e-7 * scale, 0.2 * gap):
+                        tol = rtol * scale + 3.0 * unc + 8.0 * sigma + 64.0 * EPS * max(abs(fa), abs(fb))
                         if gap > tol:
-                            return {"half_width": H, "value_difference": diff, "integral_of_gradient": q, "panels": m,
-                                    "quadrature_change_last_refinement": unc}
+                            return {"interval": [lo, hi], "value_difference": diff, "integral_of_gradient": q, "panels": m,
+                                    "quadrature_change_last_refinement": unc, "largest_gradient": gmax, "value_noise": sigma}
                         return None
                 prev = q
             return "open"
@@ -680,13 +686,23 @@ class Engine:
             self.evals += 1
             return
         done = 0
+        if inf.get("wide") and not inf["layers"] and g is not None and g.size == 1 and float(arr(x0).reshape(-1)[0]) != 0.0:
+            x = float(arr(x0).reshape(-1)[0])
+            a, b = sorted((x / inf["wide"] - x, x * inf["wide"] - x))
+            bad = self.interval_check(inf, np.ones(1), x0, a, b, rtol=1e-4)
+            self.lab("interval_check_wide")
+            self.evals += 1
+            if bad == "open":
+                self.lab("interval_check_open")
+            elif bad is not None:
+                self.fail(inf, "interval_mismatch", dict(bad, direction="e0", x=[x]))
         for r in fds:
             self.evals += 1
             if not r["finite"]:
                 self.lab("fd_value_not_finite")
                 continue
             if r.get("rough") and g is not None:
-                bad = self.interval_check(inf, r, x0)
+                bad = self.interval_check(inf, r["d"], x0, -r["rough"], r["rough"])
                 self.lab("interval_check")
                 if bad == "open":
                     self.lab("interval_check_open")
@@ -945,6 +961,46 @@ def body_degenerate(c):
     return res
 
 
+# =========================================================================== underflow fallback (deterministic)
+def underflow_cases(tier):
+    """many divergent taxa: the first evaluation underflows (rescale still off) and falls back to the "safe" peeling - the gradient is taken
+    from that very evaluation (ad_first), the numerical derivative from the later, rescaled ones"""
+    def balanced(lo, hi):
+        if hi - lo == 1:
+            return lo
+        mid = (lo + hi) // 2
+        return [balanced(lo, mid), balanced(mid, hi)]
+
+    out = []
+    n = 560
+    for k, (model, site) in enumerate([({"name": "JC69"}, {"kind": "constant"}),
+                                       ({"name": "HKY", "kappa": 2.7, "freqs": [0.31, 0.19, 0.23, 0.27]}, {"kind": "weibull", "K": 2, "shape": 0.7})]):
+        cols = [["ACGT"[(7 * i + 3 * j + (i * i) // 5 + k) % 4] for i in range(n)] for j in range(3)]
+        lengths = [0.3 + 1.2 * (((i * 37 + 11 * k) % 101) / 100.0) for i in range(2 * n - 2)]
+        out.append({"family": "nucleotide", "topo": {"nested": balanced(0, n)}, "tree": {"kind": "unrooted_tensor", "lengths": lengths}, "model": model, "site": site,
+                    "cols": cols, "tip": "noamb", "seq_order": list(range(n)), "rescale": False,
+                    "ex": {"order": "ad_first", "sep": 1e-2, "layers": [0], "flip": [False], "aff": [[0.0, 1.0]], "picks": [5 + 301 * k, 600 + 97 * k, 1100 - 13 * k, 3],
+                           "dir": [0.3, -0.7, 0.5, 0.9, -0.2, 0.6], "wrap": False}})
+    return out
+
+
+def body_underflow(c):
+    tags = dict(like_tags(c), cls="TreeLikelihoodModel", fallback=True)
+    res = Res(nontrivial=False, key=None, tags=tags)
+    infos = like_infos(c)
+    specs, _ = apply_plan(phylo.like_spec(c), infos, c["ex"])
+    dic = build_all(specs)
+    like = dic["like"]
+    if like.rescale:
+        raise HarnessError("rescaling is on before the first evaluation")
+    eng = Engine(res, dic, like, infos, c["ex"], None, tags)
+    eng.lab("subst=" + c["model"]["name"])
+    eng.run(("underflow", c["model"]["name"], c["site"]["kind"]))
+    if not like.rescale:
+        raise HarnessError("the case did not underflow: the fallback was not exercised")
+    return res
+
+
 # =========================================================================== coalescent
 TREE_KINDS = ["time", "ratio", "shift"]
 
@@ -971,7 +1027,7 @@ def coal_cases(draw):
 
 # growth rates this close to zero are generated on purpose; below the lower end the shipped formula loses its digits to cancellation
 # (the value and its gradient, NaN at exactly 0: documented TODO in the source), which is C08's exclusion as well
-SMALL_GROWTH = (1e-6, 1e-4)
+SMALL_GROWTH = (2e-6, 1e-4)
 
 
 def prepare_coal(c):
@@ -1014,7 +1070,7 @@ def coal_specs(c):
     infos = [info("theta", cls, "theta", "pos")]
     if p["model"] == "exponential":
         spec["growth"] = tt.P("growth", p["growth"])
-        infos.append(info("growth", cls, "growth", "real"))
+        infos.append(dict(info("growth", cls, "growth", "real"), wide=2.0, nowrap=abs(p["growth"][0]) < 1e-3))
     if "grid" in p:
         if c.get("grid_param"):
             spec["grid"] = tt.P("grid", p["grid"])
@@ -1785,7 +1841,7 @@ def body_joint(c0):
             if abs(gr) * root > 30.0:
                 gr = math.copysign(30.0 / root, gr)
             spec["growth"] = tt.P("growth", [gr])
-            infos.append(info("growth", cls, "growth", "real"))
+            infos.append(dict(info("growth", cls, "growth", "real"), wide=2.0, nowrap=abs(gr) < 1e-3))
         if model in ("skygrid", "linear"):
             pts = sorted(f * root for f in co["gridf"][: size - 1])
             new = separate({j: t for j, t in enumerate(pts)}, [h[i] for i in range(2 * n - 1)], delta)
@@ -1879,5 +1935,6 @@ def subchecks(tier):
         Sub("distributions", body_dist, strategy=dist_cases, quick=160, thorough=5000, pretags=_pre(lambda c: c["what"])),
         Sub("jacobian", body_jacobian, strategy=jacobian_cases, quick=240, thorough=8000, pretags=_pre(lambda c: c["what"])),
         Sub("joint", body_joint, strategy=joint_cases, quick=150, thorough=5000, pretags=lambda c: dict(like_pretags(c), cls="JointDistributionModel")),
+        Sub("underflow_fallback", body_underflow, enumerate=underflow_cases, exhaustive=True, pretags=lambda c: dict(like_tags(c), fallback=True)),
         Sub("degenerate_start", body_degenerate, enumerate=degenerate_cases, exhaustive=True, pretags=degenerate_tags),
     ]
